@@ -767,7 +767,15 @@ def classify0(ix, sets, miss):
                     break
                 if var in sets[s_['id'] - 1]['d'] and s_['s'] in ('assign', 'call', 'select', 'where'):
                     chain = [ix.kind(i) for i in (ix.path(inf['parent'], s_['id']) or [])][:-1]
-                    inner_if = [i for i in (ix.path(inf['parent'], s_['id']) or [])[:-1] if ix.kind(i) in ('if', 'elseif') and ix.path(i, vis) is None]
+                    # definitions in another arm of an IF chain than the one that leads to the read do not clear
+                    # (FindReads.visit_Conditional restores the candidates per branch)
+                    ps = ix.path(inf['parent'], s_['id']) or []
+                    inner_if = []
+                    for a, nxt in zip(ps[:-1], ps[1:]):
+                        if ix.kind(a) in ('if', 'elseif'):
+                            pv = ix.path(a, vis)
+                            if not pv or ix.info[pv[0]]['sibs'] is not ix.info[nxt]['sibs']:
+                                inner_if.append(a)
                     if inner_if or any(c in ('select', 'where') for c in chain):
                         continue
                     return f"raw:candidate-cleared-by:{'/'.join(chain + [ix.nokill(s_['id'], var, sets)])}:{role}"
